@@ -303,6 +303,33 @@ Definition host_arg (st : Z -> list Z) (h v : Z) : argmm :=
   else if negb (h_int h =? 0) then AInt (u32 (h_int h)) v else AStr (st (h_str h)) v.
 
 Record skips := { sk_max : bool; sk_min : bool; sk_sq : bool }.
+Definition skips0 : skips := {| sk_max := false; sk_min := false; sk_sq := false |}.
+
+(* metricIndexCache (one per insert): skips(metricID) via metric(metricID).
+   What a lookup of an id finds: the ingestion-status metric is answered from its own record without touching the
+   cache; a built-in or journal metric fills the cache; an id known to neither leaves the cached flags alone and
+   answers "no flags" — but the id is remembered, so the next lookup of the same id answers from the cache.
+   [fx] = false: the code as it is; true: repaired (a miss clears the cached flags) — finding F-C03c. *)
+Inductive mres := MDirect (f : skips) | MFound (f : skips) | MUnknown.
+Record mcache := { mc_last : Z; mc_flags : skips }.
+Definition mcache0 : mcache := {| mc_last := 0; mc_flags := skips0 |}.
+Definition mc_skips (fx : bool) (c : mcache) (id : Z) (res : mres) : mcache * skips :=
+  match res with
+  | MDirect f => (c, f)
+  | _ =>
+      if id =? mc_last c then (c, mc_flags c)
+      else match res with
+           | MFound f => ({| mc_last := id; mc_flags := f |}, f)
+           | _ => ({| mc_last := id; mc_flags := if fx then skips0 else mc_flags c |}, skips0)
+           end
+  end.
+(* the flags the last lookup of a sequence gets *)
+Fixpoint mc_run (fx : bool) (c : mcache) (l : list (Z * mres)) : skips :=
+  match l with
+  | [] => skips0
+  | [(id, res)] => snd (mc_skips fx c id res)
+  | (id, res) :: l' => mc_run fx (fst (mc_skips fx c id res)) l'
+  end.
 
 (* multiValueMarshal(rng, metricID, res, value, sf, ctx): everything after the key.
    hv = the three float32 bit patterns the skew functions produced (rng: inputs) *)
